@@ -80,6 +80,18 @@ Example C03_hypotheses_satisfiable :
          [VNull; VInt 2; VInt 12; VInt 6; VList [VInt 5; VInt 7]]]).
 Proof. exact wit_group_result. Qed.
 
+(* Column names of a grouping select (ParseSelect): alias, <aggregate>[_distinct]_<field>, <aggregate>, field name,
+   key_<i>, made unique by getUniqueName; the GroupBy node's fields carry these names and the Map over it reads
+   them by name.  Before the `fix:` a third column of one name repeated the second one's name and the Map read the
+   wrong column: SELECT count(b) AS c, sum(b) AS c, max(b) AS c FROM t GROUP BY a (the model makes the ambiguous
+   reference an error; the CLI silently printed max in the sum column). *)
+Theorem C03_pinned_third_name_refuted : exists t db,
+  in_fragment t = true /\ plain_db db = true /\
+  result_equivb (has_order_by t) (exec_top_pinned_names db t) (den_top db t) = false /\
+  exists r, exec_top db t = Ok r /\ printed_names (rsch r) = [[99]; [99; 95; 49]; [99; 95; 50]].
+Proof. exists wit_triple_group, wit_table. exact pinned_triple_group. Qed.
+Print Assumptions C03_pinned_third_name_refuted.
+
 (* The pinned parser built a GroupBy node only when some select expression was an aggregate call:
    SELECT a AS k FROM t GROUP BY a returned one row per input row.  (`fix:` group whenever there is a GROUP BY.) *)
 Theorem C03_pinned_group_by_ignored_refuted : exists t db,
